@@ -1,7 +1,9 @@
 (* C04: decoding untrusted bytes is total, in bounds and resource-bounded (partial: the
    machine-level effect of the unsafe reads and the real allocator are observed by the
-   harness under guard pages and a counting allocator, not proved). *)
-From PV Require Import Base MachineInt DataModel De DeFlavors WireFormat Simulation PtrSlice.
+   harness under guard pages and a counting allocator, not proved; what IS proved about
+   resources: the pre-allocation hint never exceeds the remaining input, and the size of
+   whatever a decode returns is linear in the bytes it consumed). *)
+From PV Require Import Base MachineInt DataModel De DeFlavors WireFormat Simulation PtrSlice SizeBound.
 Open Scope N_scope.
 
 (* For every byte string and every shape, decoding through the raw-pointer slice flavour
@@ -34,6 +36,27 @@ Theorem C04_hint_sound : forall (s : dslice) (l : list byte) (n len : N),
   ptr_inv s l -> seq_size_hint (dslice_hint s) len = Some n -> n <= N.of_nat (length l) /\ n = len.
 Proof. exact hint_sound. Qed.
 
+(* whatever lengths the input claims: the value a successful decode builds (one unit per node,
+   one per byte of string / byte-buffer content: what the collection visitors allocate) is at
+   most slope(t) * consumed + offset(t), two constants of the shape alone, for every shape in
+   which no sequence or map has elements that occupy no bytes (no_zero_width: the property's
+   own exclusion) *)
+Theorem C04_decoded_size_linear : forall (t : ty) (input : list byte) (v : value) (rest : list byte),
+  bytes_ok input -> no_zero_width t = true ->
+  take_from_bytes_ptr t input = Ok (v, rest) ->
+  exists consumed, input = consumed ++ rest /\ vsize v <= slope t * N.of_nat (length consumed) + offset t.
+Proof. exact ptr_decoded_size_linear. Qed.
+(* the exclusion is necessary: nine bytes decode to 2^63 - 1 units ... the model's loop would
+   not finish; a small instance shows the growth: 3 bytes, 16 384 elements *)
+Example C04_zero_width_unbounded :
+  no_zero_width (TSeq TUnit) = false /\
+  match take_from_bytes_ptr (TSeq TUnit) [128; 128; 1] with Ok (v, _) => vsize v | _ => 0 end = 16385.
+Proof. split; vm_compute; reflexivity. Qed.
+Example C04_size_example :
+  let t := TSeq (TStruct [TStr; TOption (TInt U16)]) in
+  no_zero_width t = true /\ slope t = 7 /\ offset t = 1.
+Proof. repeat split; vm_compute; reflexivity. Qed.
+
 Example C04_example :
   take_from_bytes_ptr (TSeq (TInt U8)) [255; 255; 255; 255; 255; 255; 255; 255; 255; 1; 1; 2]
   = Err DeserializeUnexpectedEnd /\
@@ -44,3 +67,4 @@ Print Assumptions C04_total_in_bounds.
 Print Assumptions C04_ptr_is_slice.
 Print Assumptions C04_borrowed_in_input.
 Print Assumptions C04_hint_sound.
+Print Assumptions C04_decoded_size_linear.
